@@ -285,8 +285,8 @@ pub use imp::exec;
 pub fn plan(tier: &str) -> u64 {
     match tier {
         "thorough" => 13_000,
-        "selfcheck" => 24,
-        _ => 130,
+        "selfcheck" => 20_000,
+        _ => 500,
     }
 }
 
@@ -310,9 +310,151 @@ fn utf8_mix(rng: &mut Rng, n: usize) -> Vec<u8> {
     out
 }
 
+/// One generated text field as the crate's string helper consumes it: an 8-byte little-endian
+/// length n, then content arranged so that the n-byte window ends at a chosen place relative to a
+/// multi-byte character: complete, cut after 1..w-1 bytes, followed by the right continuation
+/// bytes, by a non-continuation byte, by another lead byte, or by nothing.
+fn text_field(rng: &mut Rng, cap: usize, out: &mut Vec<u8>) -> String {
+    let chars: [&[u8]; 3] = ["é".as_bytes(), "€".as_bytes(), "😀".as_bytes()];
+    let ch = chars[rng.usize_below(3)];
+    let w = ch.len();
+    let cut = match rng.below(4) {
+        0 => 0,                         // window ends on a boundary
+        _ => 1 + rng.usize_below(w - 1), // window ends inside the character
+    };
+    let lead = match rng.below(5) {
+        0 => 0,
+        1 => cap.saturating_sub(cut),          // window ends exactly at capacity
+        2 => cap.saturating_sub(cut + 1),
+        3 => cap.saturating_sub(w).saturating_sub(rng.usize_below(3)),
+        _ => rng.usize_below(cap.min(40) + 1),
+    };
+    let n: u64 = match rng.below(8) {
+        0 => u64::MAX,                        // clamped to the capacity by the generator
+        1 => (cap + 1 + rng.usize_below(300)) as u64,
+        _ => (lead + cut) as u64,
+    };
+    out.extend_from_slice(&n.to_le_bytes());
+    let ascii = b"abcdefghijklmnopqrstuvwxyz";
+    for i in 0..lead {
+        // mostly ASCII, sometimes an ill-formed byte in the middle (error_len = Some)
+        out.push(if rng.chance(1, 200) { 0xff } else { ascii[i % 26] });
+    }
+    out.extend_from_slice(&ch[..cut]);
+    let follower = rng.below(5);
+    match follower {
+        0 => out.extend_from_slice(&ch[cut..]), // the rest of the character
+        1 => out.push(b'A'),                    // not a continuation byte
+        2 => out.push(0xff),
+        3 => out.extend_from_slice("ß".as_bytes()), // another lead byte
+        _ => {}                                 // nothing: the next field follows directly
+    }
+    format!("text(cap {} n {} lead {} cut {}/{} follower {})", cap, n, lead, cut, w, follower)
+}
+
+fn bytes_field(rng: &mut Rng, cap: usize, out: &mut Vec<u8>) {
+    let n: u64 = match rng.below(6) {
+        0 => u64::MAX,
+        1 => (cap + 1) as u64,
+        2 => cap as u64,
+        3 => 0,
+        _ => rng.below(cap as u64 + 1),
+    };
+    out.extend_from_slice(&n.to_le_bytes());
+    let take = (n.min(cap as u64)) as usize;
+    out.extend_from_slice(&rng.bytes(take));
+}
+
+fn user_fields(rng: &mut Rng, out: &mut Vec<u8>, desc: &mut Vec<String>) {
+    bytes_field(rng, 64, out); // user.id
+    for cap in [128usize, 64, 64] {
+        // icon, name, displayName: presence flag, then the text
+        if rng.chance(4, 5) {
+            out.push(1);
+            desc.push(text_field(rng, cap, out));
+        } else {
+            out.push(0);
+        }
+    }
+}
+
+/// Entropy laid out along the generators' own consumption order so that generation gets as far
+/// as the text and byte fields of MakeCredential / CredentialManagement requests.
+fn grammar_entropy(rng: &mut Rng) -> (Vec<u8>, String) {
+    let mut e = Vec::new();
+    let mut desc = Vec::new();
+    if rng.chance(2, 3) {
+        // derived enum choice: (u32 * 10) >> 32 == 0 -> MakeCredential
+        e.extend_from_slice(&[rng.next() as u8, rng.next() as u8, rng.next() as u8, rng.below(25) as u8]);
+        desc.push("MakeCredential".to_string());
+        desc.push(text_field(rng, 256, &mut e)); // rp.id
+        if rng.chance(4, 5) {
+            e.push(1);
+            desc.push(text_field(rng, 64, &mut e)); // rp.name
+        } else {
+            e.push(0);
+        }
+        e.push(rng.below(2) as u8); // rp.icon present?
+        user_fields(rng, &mut e, &mut desc);
+    } else {
+        // == 6 -> CredentialManagement
+        e.extend_from_slice(&[rng.next() as u8, rng.next() as u8, rng.next() as u8, 0xA0 + rng.below(12) as u8]);
+        desc.push("CredentialManagement".to_string());
+        e.extend_from_slice(&rng.bytes(4)); // sub-command choice
+        e.push(1); // sub_command_params present
+        if rng.coin() {
+            e.push(1);
+            e.extend_from_slice(&rng.bytes(32)); // rp_id_hash
+        } else {
+            e.push(0);
+        }
+        e.push(0); // no credential id
+        e.push(1); // user present
+        user_fields(rng, &mut e, &mut desc);
+    }
+    // tail: lengths of borrowed byte strings are read from the end of the data
+    let tail = match rng.below(3) {
+        0 => vec![0u8; 64],
+        1 => {
+            let mut t = vec![0u8; 63];
+            t.push(rng.below(8) as u8);
+            t
+        }
+        _ => rng.bytes(48),
+    };
+    e.extend_from_slice(&tail);
+    (e, desc.join("; "))
+}
+
 pub fn gen(seed: u64, run: u64, tier: &str) -> Vec<Step> {
     let mut rng = Rng::new(seed, run, 19);
-    let kind = run % 5;
+    let kind = run % 7;
+    if kind >= 5 {
+        // grammar-aware entropy: the same fields reach the CTAP2 generator directly and the combined
+        // generator behind its own variant choice
+        let (e, what) = grammar_entropy(&mut rng);
+        let mut steps = Vec::new();
+        let mut combined = vec![0xff, 0xff, 0xff, 0xff];
+        combined.extend_from_slice(&e);
+        for (generator, ent) in [(1u8, &e), (2u8, &combined), (0u8, &e)] {
+            let mut cuts: Vec<usize> = vec![ent.len()];
+            // EOF inside every field: every offset (dense in quick/thorough, sparse in selfcheck)
+            let stepby = if tier == "selfcheck" { 7 } else { 1 };
+            cuts.extend((0..ent.len().min(420)).step_by(stepby));
+            cuts.sort();
+            cuts.dedup();
+            for k in cuts {
+                let rests: &[bool] = if k == ent.len() { &[false, true] } else if k % 2 == 0 { &[false] } else { &[true] };
+                if generator == 0 && k != ent.len() && k % 8 != 0 {
+                    continue;
+                }
+                for take_rest in rests {
+                    steps.push(Step::Generate(GenSpec { generator, take_rest: *take_rest, entropy: ent[..k].to_vec(), desc: format!("field-aligned entropy [{}], cut at {}", what, k) }));
+                }
+            }
+        }
+        return steps;
+    }
     let (base, what): (Vec<u8>, String) = match kind {
         0 => {
             let b = (run / 5 % 256) as u8;
@@ -331,7 +473,7 @@ pub fn gen(seed: u64, run: u64, tier: &str) -> Vec<Step> {
             // steer the derived enum choice (first bytes) and keep length prefixes small so that generation gets far
             let n = 300 + rng.usize_below(3000);
             let mut b = utf8_mix(&mut rng, n);
-            b[0] = (rng.below(10) as u8).wrapping_mul(26).wrapping_add(rng.below(20) as u8);
+            b[3] = (rng.below(10) as u8).wrapping_mul(26).wrapping_add(rng.below(20) as u8);
             (b, format!("{} bytes, steered variant byte, UTF-8 mix", n))
         }
         _ => {
